@@ -111,3 +111,16 @@ func OutDir() string {
 	}
 	return ""
 }
+
+// SmallShards: how many shards the short cases are spread over (more in the thorough tier).
+func SmallShards() int {
+	for i, a := range os.Args {
+		if (a == "-tier" || a == "--tier") && i+1 < len(os.Args) && os.Args[i+1] == "thorough" {
+			return 96
+		}
+		if a == "-tier=thorough" || a == "--tier=thorough" {
+			return 96
+		}
+	}
+	return 24
+}
